@@ -377,3 +377,60 @@ Definition steps_of (r : nat) (steps : list step) : list step :=
 
 Definition outputs_of (r : nat) (outs : list (nat * res doc)) : list (res doc) :=
   map snd (filter (fun p => Nat.eqb (fst p) r) outs).
+
+(* ------------------------------------------------------------------ the filter pool *)
+(* docFieldsFilterPool (a sync.Pool): doFetch takes one filter object at its start (Get hands out ANY
+   pooled object, or a new one when the pool has none) and gives it back when it leaves. [fpath] =
+   the ways doFetch leaves; [rel p] = how many times releaseDocFieldsFilter runs on that way.
+   The code: `defer releaseDocFieldsFilter(dp)` — once on every path. *)
+Inductive fpath :=
+| PDone            (* all documents sent *)
+| PIdsError        (* extractIDs failed *)
+| PStreamError     (* docsStream.Next failed *)
+| PSendError       (* stream.Send failed, context alive *)
+| PCancelled.      (* stream.Send failed, context cancelled: leaves the loop with break *)
+
+Inductive pev :=
+| PAcquire (r : nat) (pick : nat)   (* request r starts; pick = which pooled object Get returns *)
+| PFinish (r : nat) (p : fpath).    (* request r leaves doFetch by path p *)
+
+Record pstate := mkPS { pheld : list (nat * nat); ppool : list nat; pnext : nat }.
+
+Fixpoint remove_nth {A} (i : nat) (l : list A) : list A :=
+  match l, i with
+  | [], _ => []
+  | _ :: r, 0 => r
+  | x :: r, S i' => x :: remove_nth i' r
+  end.
+
+Fixpoint take_req (r : nat) (h : list (nat * nat)) : option (nat * list (nat * nat)) :=
+  match h with
+  | [] => None
+  | (r', o) :: t =>
+      if Nat.eqb r r' then Some (o, t)
+      else match take_req r t with
+           | Some (o2, t2) => Some (o2, (r', o) :: t2)
+           | None => None
+           end
+  end.
+
+Definition pstep (rel : fpath -> nat) (st : pstate) (e : pev) : pstate :=
+  match e with
+  | PAcquire r pick =>
+      match nth_error (ppool st) pick with
+      | Some o => mkPS ((r, o) :: pheld st) (remove_nth pick (ppool st)) (pnext st)
+      | None => mkPS ((r, pnext st) :: pheld st) (ppool st) (S (pnext st))
+      end
+  | PFinish r p =>
+      match take_req r (pheld st) with
+      | Some (o, h') => mkPS h' (repeat o (rel p) ++ ppool st) (pnext st)
+      | None => st
+      end
+  end.
+
+Definition releases_code (_ : fpath) : nat := 1.
+(* the variant with explicit releases where the cancelled path releases before `break` AND after the loop *)
+Definition releases_dbl (p : fpath) : nat := match p with PCancelled => 2 | _ => 1 end.
+
+Definition prun (rel : fpath -> nat) (evs : list pev) : pstate :=
+  fold_left (pstep rel) evs (mkPS [] [] 0).
